@@ -61,6 +61,7 @@ fn fail_rec(n) { return fail_rec(n + 1); }
 fn fail_fiber() { var f = Fiber.new(|| { return 1; }); f.call(); f.call(); }
 #[constructor(new)] class Exc { }
 #[derive(ValueError), constructor(new)] class SubErr { }
+fn cyclic_error() { var ce = Error.new("c"); ce.context = ce; return ce; }
 fn fail(k) {
   if k == nil { return nil; }
 %s  return nil;
@@ -229,7 +230,7 @@ class Gen:
                 return self.simple(ctx)
             if r.chance(0.3):
                 return ["failop", self.id(), r.choice([1, 2, 3, 4, 5, 6, 7, 8, 11, 12])]
-            return ["throw", self.id(), r.choice(["s", "s", "n", "i", "t", "e", "z"])]
+            return ["throw", self.id(), r.choice(["s", "s", "n", "i", "t", "e", "z", "c"])]
         if k < 90:
             if ctx["fin_level"] > 0 and not self.f.get("finally_local") and not self.k.get("finally_locals"):
                 return self.simple(ctx)
@@ -381,7 +382,7 @@ def render_all(ir):
         elif k == "chk":
             emit('fail(print(("chk", "%s")));' % st[1], ind)
         elif k == "throw":
-            v = {"s": '"t%d"' % st[1], "n": "%d" % st[1], "i": "Exc.new()", "e": "SubErr.new()", "z": "nil", "t": '("tt", %d)' % st[1]}[st[2]]
+            v = {"s": '"t%d"' % st[1], "n": "%d" % st[1], "i": "Exc.new()", "e": "SubErr.new()", "z": "nil", "c": "cyclic_error()", "t": '("tt", %d)' % st[1]}[st[2]]
             emit("throw %s;" % v, ind)
         elif k == "failop":
             emit("{ %s }" % OPS[st[2]][0], ind)
@@ -693,6 +694,9 @@ def model(ir, tape, faults):
                 raise Thrown(cls("Num"), num(st[1]), "%d" % st[1])
             if vk == "i":
                 raise Thrown(cls("Exc"), inst("Exc"), "Unhandled Exc: <Exc instance")
+            if vk == "c":
+                # an Error whose context is the error itself: whoever reports it must not follow the chain for ever
+                raise Thrown(cls("Error"), inst("Error"), "Unhandled Error: <Error instance")
             if vk == "z":
                 raise Thrown(cls("Nil"), None, "Unhandled exception: nil")      # any value can be thrown, nil too
             if vk == "e":
